@@ -208,6 +208,8 @@ type want struct {
 	hs    *tlsSpec // configuration of the caller-supplied SetTLSHandshake function (nil = none)
 	h2c   bool     // EnableH2C in force
 	proxy bool     // SetProxyURL(the cell's proxy) in force
+	fp    bool     // a fingerprint handshake (SetTLSFingerprintChrome) is installed: TCP handshakes are utls ones
+	// working with the client's own settings of the moment
 }
 
 var forceName = []string{"", "1.1", "2", "3"}
@@ -226,10 +228,12 @@ func (w want) after(x op) want {
 			w.dial = x.TLS
 		}
 	case "handshake":
-		w.hs = nil
+		w.hs, w.fp = nil, false
 		if x.TLS != nil && !x.TLS.Nil {
 			w.hs = x.TLS
 		}
+	case "fp":
+		w.hs, w.fp = nil, true
 	default:
 		w.tls = specAfter(w.tls, x)
 	}
@@ -414,6 +418,8 @@ func runCell(p *pki, o *origin, comp *origin, cl cell, timeout time.Duration) (r
 				c.SetProxy(nil)
 			}
 			c.GetTransport().CloseIdleConnections()
+		case "fp":
+			c.SetTLSFingerprintChrome()
 		case "handshake":
 			if x.TLS == nil || x.TLS.Nil {
 				c.SetTLSHandshake(nil)
@@ -648,7 +654,16 @@ func runCell(p *pki, o *origin, comp *origin, cl cell, timeout time.Duration) (r
 		}
 		if o.spec.HTTPS && len(rec.Hellos) > 0 {
 			stack := "tcp"
-			viaProxy := po.connectCount() > nConnect
+			// the last TCP hello came through a tunnel iff there are not more origin TCP hellos in this request than
+			// CONNECTs (after an ALPN hand-off a Connection: close request makes the http2 transport dial a second,
+			// DIRECT connection of its own)
+			nTCP := 0
+			for _, h := range rec.Hellos {
+				if !h.Quic && !h.Proxy {
+					nTCP++
+				}
+			}
+			viaProxy := po.connectCount() > nConnect && nTCP <= po.connectCount()-nConnect
 			if rec.Hellos[len(rec.Hellos)-1].Quic {
 				stack = "quic"
 			} else if viaProxy {
@@ -779,6 +794,8 @@ func coqOps(ops []op) string {
 			add(0, "OH2C "+hk.CoqBool(x.B))
 		case "dialtls":
 			add(0, "ODialTLS "+coqTLS(x.TLS))
+		case "fp":
+			add(0, "OFingerprint")
 		case "handshake":
 			add(0, "OHandshake "+coqTLS(x.TLS))
 		case "proxy":
